@@ -5,7 +5,7 @@
    Quantification as in C04.v: every configuration, every event history of models/Cache.v.
    [c_expire cfg e] is E: normalExpire for e = 0 (nil error), errorExpire otherwise.
    [c_cfg_ok cfg] = 0 < errorExpire <= normalExpire (asserted by cachex.WithExpire). *)
-From Got Require Import Base Cache CacheProofs CacheStatus64 CacheStatus64Proofs.
+From Got Require Import Base Cache CacheProofs CacheStatus64 CacheStatus64Proofs CacheGet1 CacheGet1Proofs.
 Local Open Scope Z_scope.
 
 (* now-u < E: Load returns the result's future, creates no job, changes nothing; Get2 awaits
@@ -163,3 +163,37 @@ Theorem cache_newcache_accepted_expiries :
   cst_newcache_starts e = true <-> (e < 2 ^ 61 \/ 2 ^ 62 < e < 2 ^ 62 + 2 ^ 61).
 Proof. exact cst_newcache_starts_spec. Qed.
 Print Assumptions cache_newcache_accepted_expiries.
+
+(* ---- the sibling entry point Cache.Get1 (models/CacheGet1.v: var v, _ = my.Get2(key); return v)
+   In every reachable state, for every key: Get1 takes Get2's decision (awaits the same future or
+   answers at once) and hands out the first component of Get2's pair; while the result is fresh it
+   is served at once; while a refresh g of the stale result f is running and f is younger than 2E
+   the stale value is served at once (the caller does not wait for the refresh); from 2E on the
+   caller is handed the running refresh and waits for it *)
+Theorem cache_get1_is_get2_first_component :
+  forall cfg evs k,
+  let s := c_run cfg c_init evs in
+  cg_get1 cfg s k = c_get2 cfg s k /\
+  cg_get1_result s (cg_get1 cfg s k) =
+    match cg_get2_result s (c_get2 cfg s k) with Some (v, e) => Some v | None => None end /\
+  (forall f x v e u, c_lookup (c_map s) k = Some f -> c_get (c_futs s) f = Some x ->
+     c_fdone x = Some (v, e, u) -> c_now s - u < c_expire cfg e ->
+     cg_get1_result s (cg_get1 cfg s k) = Some v) /\
+  (forall g y f x v e u, c_lookup (c_map s) k = Some g -> c_get (c_futs s) g = Some y ->
+     c_fdone y = None -> c_fpred y = Some f -> c_get (c_futs s) f = Some x ->
+     c_fdone x = Some (v, e, u) ->
+     (c_now s - u < 2 * c_expire cfg e -> cg_get1_result s (cg_get1 cfg s k) = Some v) /\
+     (2 * c_expire cfg e <= c_now s - u ->
+        cg_get1 cfg s k = OAwait g /\ cg_get1_result s (cg_get1 cfg s k) = None)).
+Proof. exact cg_get1_spec. Qed.
+Print Assumptions cache_get1_is_get2_first_component.
+
+(* non-vacuity: E = 1000; result 5 of key 7 completes at 17; at 1100 a Load starts the refresh;
+   at 1200 (refresh running, age 1183 in [E, 2E)) Get1 = 5 at once; at 2017 (age 2E) Get1 waits *)
+Example c05_get1_nonvacuous :
+  let cfg := {| c_normE := 1000; c_errE := 1000 |} in
+  let evs := [CLoad 7; CStart 7; CAdvance 17; CFinish 7 0 5 0; CAdvance 1083; CLoad 7; CStart 7; CAdvance 100] in
+  let s := c_run cfg c_init evs in
+  let s2 := c_run cfg s [CAdvance 817] in
+  cg_get1_result s (cg_get1 cfg s 7) = Some 5 /\ cg_get1 cfg s2 7 = OAwait 1%nat /\ cg_get1_result s2 (cg_get1 cfg s2 7) = None.
+Proof. vm_compute. repeat split. Qed.
